@@ -118,6 +118,15 @@ func main() {
 		os.Exit(checkMain(id, tier))
 	case "replay":
 		os.Exit(replayMain(os.Args[2]))
+	case "dumpjob":
+		// debugging aid: print job <idx> of check <id> as JSON
+		idx, _ := strconv.Atoi(os.Args[3])
+		tier := "quick"
+		if len(os.Args) > 4 {
+			tier = os.Args[4]
+		}
+		b, _ := json.Marshal(checks[os.Args[2]].Jobs(tier)[idx])
+		fmt.Println(string(b))
 	case "trace":
 		// debugging aid: print the default path of a named scenario
 		traceMain(os.Args[2:])
